@@ -885,9 +885,16 @@ func stress(w *tr.Writer, g, n int, seed uint64) {
 		}(i)
 	}
 	wg.Wait()
-	deadline := time.Now().Add(20 * time.Second)
+	// wait while the loop makes progress: give up after 4 s without a single execution (or 30 s in all)
+	deadline := time.Now().Add(30 * time.Second)
+	lastTotal, lastMove := atomic.LoadInt64(&total), time.Now()
 	for atomic.LoadInt64(&total) < atomic.LoadInt64(&issued) && time.Now().Before(deadline) {
 		time.Sleep(200 * time.Microsecond)
+		if t := atomic.LoadInt64(&total); t != lastTotal {
+			lastTotal, lastMove = t, time.Now()
+		} else if time.Since(lastMove) > 4*time.Second {
+			break
+		}
 	}
 	// the loop is idle (or stuck): everything accepted must have run exactly once
 	iss := int(atomic.LoadInt64(&issued))
@@ -904,7 +911,8 @@ func stress(w *tr.Writer, g, n int, seed uint64) {
 		}
 	}
 	if lost > 0 {
-		w.Fail("Trigger", "lost-request", fmt.Sprintf("stress: %d of %d accepted requests never ran although the loop had 20 s", lost, iss))
+		stressLost = true
+		w.Fail("Trigger", "lost-request", fmt.Sprintf("stress: %d of %d accepted requests never ran (the loop made no progress for 4 s)", lost, iss))
 	}
 	orderMu.Lock()
 	last := map[int]int{}
@@ -923,7 +931,7 @@ func stress(w *tr.Writer, g, n int, seed uint64) {
 	_ = p.Trigger(queue.HighPriority, func(any) error { return errorx.ErrEngineShutdown }, nil)
 	select {
 	case <-done:
-	case <-time.After(5 * time.Second):
+	case <-time.After(3 * time.Second):
 		if lost == 0 {
 			w.Fail("Trigger", "lost-request", "stress: the shutdown request never ran")
 		}
@@ -1273,7 +1281,12 @@ func (g *gen) batch() {
 	g.finale(d)
 }
 
+var stressLost bool // a stress run already lost requests: one report is enough, do not wait again
+
 func (g *gen) stressCase(gor, n int) {
+	if stressLost {
+		return
+	}
 	g.id++
 	g.w.Case(fmt.Sprintf("stress%d", g.id), fam, "variant="+variant)
 	g.w.Hist("kind=stress")
